@@ -46,6 +46,7 @@ impl<T: Scalar> Outcome<T> {
     pub fn prove_log(&mut self, name: impl Into<String>, l: T, rel: Rel, r: T) {
         let mut g = goal(name, l, rel, r);
         g.loglin = true;
+        g.only_cuts = Some(vec![]); // log goals see the real multiplicative structure, no abstraction
         self.goals.push(g);
     }
     /// disjunctive goal: at least one of the relations holds
@@ -405,6 +406,30 @@ pub fn replay_goal<H: Harness>(h: &H, name: &str, model: &BTreeMap<String, f64>,
                 for g in gs.iter().filter(|g| g.name == name) {
                     if let Some(d) = native_violation(g, h.tol()) {
                         return Some((full, d));
+                    }
+                }
+                // relational / simple constraints of an abstraction (cut) are goals as well
+                for c in &o.cuts {
+                    for g in c.rels.iter().filter(|g| g.name == name) {
+                        if let Some(d) = native_violation(g, h.tol()) {
+                            return Some((full, d));
+                        }
+                    }
+                    for con in &c.constraints {
+                        if format!("cut {} {}", c.name, con) == name {
+                            let v = c.node;
+                            let cc = con.replace(' ', "");
+                            let bad = match cc.as_str() {
+                                "(>{}0.0)" => !(v > 0.0),
+                                "(>={}0.0)" => !(v >= 0.0),
+                                "(<={}1.0)" => !(v <= 1.0),
+                                "(<{}1.0)" => !(v < 1.0),
+                                _ => false,
+                            };
+                            if bad {
+                                return Some((full, format!("{}: value {:e}", name, v)));
+                            }
+                        }
                     }
                 }
             }
@@ -1112,8 +1137,7 @@ pub fn check_harness<H: Harness>(h: &H, cfg: &RunCfg) -> PartResult {
                 match ans {
                     Answer::Unsat => res.goals_proved += 1,
                     Answer::Sat(m) => {
-                        let is_cutj = matches!(&kinds[k], QKind::CutJustify { .. });
-                        match if is_cutj { None } else { replay_goal(h, name, m, cfg.seed, false) } {
+                        match replay_goal(h, name, m, cfg.seed, false) {
                             Some((m2, d)) => res.violations.push(Violation {
                                 goal: name.clone(),
                                 site: h.name(),
@@ -1292,11 +1316,21 @@ pub fn validate_at<H: Harness>(h: &H, model: &BTreeMap<String, f64>) -> Result<u
                     return Err(format!("goal count differs: native {} symbolic {}", no.goals.len(), o.goals.len()));
                 }
                 let mut n = 0;
+                // values that are zero up to rounding are compared against the overall magnitude of the run
+                let mut scale_all = 1.0f64;
+                for gn in no.goals.iter() {
+                    for v in [gn.lhs, gn.rhs] {
+                        if v.is_finite() {
+                            scale_all = scale_all.max(v.abs());
+                        }
+                    }
+                }
                 for (gs, gn) in o.goals.iter().zip(no.goals.iter()) {
                     for (sv, nv) in [(gs.lhs, gn.lhs), (gs.rhs, gn.rhs)] {
                         let x = sym::eval_f64(&p.nodes, sv.0, &env, &nar);
                         let sc = x.abs().max(nv.abs()).max(1e-300);
-                        if (x.is_nan() != nv.is_nan()) || (!x.is_nan() && (x - nv).abs() > 1e-9 * sc) {
+                        let same_bits = x.to_bits() == nv.to_bits();
+                        if !same_bits && ((x.is_nan() != nv.is_nan()) || (!x.is_nan() && (x - nv).abs() > 1e-9 * sc + 1e-12 * scale_all)) {
                             return Err(format!("goal {}: term evaluates to {:e}, native {:e}", gs.name, x, nv));
                         }
                         n += 1;
